@@ -213,7 +213,11 @@ func c12Confinement(c *run.Ctx) {
 					if strings.HasPrefix(flow, "authorize") && flow != "authorize-code" || flow == "par" && fi%2 == 0 {
 						scopes = "openid " + p.scope
 					}
+					c12Polluted = ""
 					accepted, tok, detail := c12Drive(w, flow, a, scopes, p.aud)
+					if c12Polluted != "" {
+						c.Violate(run.Violation{Kind: "token-request-widened-requested", Key: "token-request-widened-requested flow=" + flow, Detail: c12Polluted})
+					}
 					c.Case(fmt.Sprintf("confine flow=%s scope-strategy=%s aud-strategy=%s scope-covered=%s aud-covered=%s accepted=%v", flow, sst, ast, sv, av, accepted))
 					switch {
 					case sv == spec.Unknown || av == spec.Unknown:
@@ -353,6 +357,39 @@ func sameStrings(a, b []string) bool {
 	return true
 }
 
+// c12Redeem exchanges a code / device code while the token request itself names a scope and an audience outside the client's
+// registration; the accepted request must still carry, as requested sets, exactly what the authorization request asked for.
+var c12Polluted string
+
+func c12Redeem(w *world.World, form url.Values, a world.Auth, scope, aud string) *world.Out {
+	form.Set("scope", "admin c12.smuggled")
+	form.Set("audience", "https://evil.example/v1")
+	var rs, ra []string
+	seen := false
+	out := w.Token(form, a, func(ar fosite.AccessRequester) {
+		seen = true
+		rs = append([]string{}, ar.GetRequestedScopes()...)
+		ra = append([]string{}, ar.GetRequestedAudience()...)
+	})
+	if seen && out.Err == nil {
+		wantA := []string{}
+		if aud != "" {
+			wantA = []string{aud}
+		}
+		for _, x := range rs {
+			if x == "admin" || x == "c12.smuggled" {
+				c12Polluted = fmt.Sprintf("accepted token request carries requested scopes %v (authorization request asked for %q)", rs, scope)
+			}
+		}
+		for _, x := range ra {
+			if x == "https://evil.example/v1" && (len(wantA) == 0 || wantA[0] != x) {
+				c12Polluted = fmt.Sprintf("accepted token request carries requested audience %v (authorization request asked for %v)", ra, wantA)
+			}
+		}
+	}
+	return out
+}
+
 // c12Drive runs one request of the given flow; returns whether the server accepted it, an access token if one was delivered.
 func c12Drive(w *world.World, flow string, a world.Auth, scope, aud string) (bool, string, string) {
 	q := url.Values{"client_id": {"c12"}, "state": {"state-0123456789"}, "nonce": {"nonce-0123456789"}, "redirect_uri": {"https://c12.example/cb"}, "scope": {scope}}
@@ -366,7 +403,7 @@ func c12Drive(w *world.World, flow string, a world.Auth, scope, aud string) (boo
 		ok := out.Err == nil && (out.Params.Get("code") != "" || out.Params.Get("access_token") != "")
 		tok := out.Params.Get("access_token")
 		if ok && tok == "" {
-			t := w.Token(url.Values{"grant_type": {"authorization_code"}, "code": {out.Params.Get("code")}, "redirect_uri": {"https://c12.example/cb"}}, a)
+			t := c12Redeem(w, url.Values{"grant_type": {"authorization_code"}, "code": {out.Params.Get("code")}, "redirect_uri": {"https://c12.example/cb"}}, a, scope, aud)
 			tok = t.S("access_token")
 		}
 		return ok, tok, world.ErrDetail(out.Err)
@@ -380,7 +417,7 @@ func c12Drive(w *world.World, flow string, a world.Auth, scope, aud string) (boo
 		ok := az.Err == nil && az.Params.Get("code") != ""
 		tok := ""
 		if ok {
-			t := w.Token(url.Values{"grant_type": {"authorization_code"}, "code": {az.Params.Get("code")}, "redirect_uri": {"https://c12.example/cb"}}, a)
+			t := c12Redeem(w, url.Values{"grant_type": {"authorization_code"}, "code": {az.Params.Get("code")}, "redirect_uri": {"https://c12.example/cb"}}, a, scope, aud)
 			tok = t.S("access_token")
 		}
 		return ok, tok, world.ErrDetail(az.Err)
@@ -408,7 +445,7 @@ func c12Drive(w *world.World, flow string, a world.Auth, scope, aud string) (boo
 			return false, "", world.ErrDetail(out.Err)
 		}
 		_ = w.DeviceDecide(out.S("user_code"), true, "user-d", nil, false)
-		t := w.Token(url.Values{"grant_type": {"urn:ietf:params:oauth:grant-type:device_code"}, "device_code": {out.S("device_code")}}, a)
+		t := c12Redeem(w, url.Values{"grant_type": {"urn:ietf:params:oauth:grant-type:device_code"}, "device_code": {out.S("device_code")}}, a, scope, aud)
 		return t.Err == nil, t.S("access_token"), world.ErrDetail(t.Err)
 	case "jwt_bearer":
 		keys := world.GetKeys()
